@@ -72,11 +72,25 @@ func (o c17Op) String() string {
 
 var c17Tasks = []string{"task1", "task10"}
 
+// messages: 0 = drop of collection 7, 1 = drop of partition 70 of collection 7, 2 = drop of collection 8 (a second
+// pending message of the same kind for one task - two collections of a task dropped at about the same time)
 func c17MsgID(m int) string {
-	if m == 0 {
+	switch m {
+	case 0:
 		return api.GetDropCollectionMsgID(7)
+	case 2:
+		return api.GetDropCollectionMsgID(8)
 	}
 	return api.GetDropPartitionMsgID(7, 70)
+}
+
+// c17Msgs: the messages a task reports in the BFS (the second same-kind message only for the first task: it doubles
+// nothing that the pair of tasks does not already cover)
+func c17Msgs(task int) []int {
+	if task == 0 {
+		return []int{0, 1, 2}
+	}
+	return []int{0, 1}
 }
 
 // c17Targets: the target list of a message in shard order (v0, v1, v2), as the channel manager hands it over. n < 10:
@@ -172,7 +186,7 @@ func c17Exec(nTargets int, hist []c17Op) *c17Run {
 			base := api.BaseTaskMsg{TaskID: task, MsgID: id, TargetChannels: append([]string{}, targets...), ReadyChannels: append([]string{}, op.Shards...)}
 			var ready bool
 			var err error
-			if op.Msg == 0 {
+			if op.Msg != 1 {
 				ready, err = impl.UpdateTaskDropCollectionMsg(ctx, api.TaskDropCollectionMsg{Base: base, DatabaseName: "db", CollectionName: "c", DropTS: 100})
 				refKind[k] = "C:"
 			} else {
@@ -278,7 +292,7 @@ func c17Ops(nTargets int, multi bool) []c17Op {
 	var ops []c17Op
 	tg := c17Targets(nTargets)
 	for t := range c17Tasks {
-		for m := 0; m < 2; m++ {
+		for _, m := range c17Msgs(t) {
 			for _, s := range tg {
 				ops = append(ops, c17Op{Kind: "report", Task: t, Msg: m, Shards: []string{s}})
 			}
@@ -288,7 +302,7 @@ func c17Ops(nTargets int, multi bool) []c17Op {
 		}
 	}
 	for t := range c17Tasks {
-		for m := 0; m < 2; m++ {
+		for _, m := range c17Msgs(t) {
 			ops = append(ops, c17Op{Kind: "remove", Task: t, Msg: m})
 		}
 	}
@@ -324,7 +338,7 @@ func TestVerifC17Meta(t *testing.T) {
 		depth = 9
 	}
 	res.Bounds["depth"] = depth
-	res.Rule = "BFS over histories of {report(task, drop-collection|drop-partition message, shard subset), remove(task, message), reload from the store} for 2 tasks (ids prefix of each other) x 2 messages x target lists of 1..3 shards (in and out of lexicographic order); each history replayed on a fresh real ReplicateMeteImpl over a JSON-serialising store; memory (white-box maps), store dump, API read-back and returned ready flag compared with a reference union after every step; states deduplicated on (memory, store) = the entire mutable state; non-trivial = distinct states reached through an accumulating report or a removal of a present message"
+	res.Rule = "BFS over histories of {report(task, drop-collection|drop-partition message, shard subset), remove(task, message), reload from the store} for 2 tasks (ids prefix of each other) x 2-3 messages (collection drop, partition drop, a second collection drop) x target lists of 1..3 shards (in and out of lexicographic order); each history replayed on a fresh real ReplicateMeteImpl over a JSON-serialising store; memory (white-box maps), store dump, API read-back and returned ready flag compared with a reference union after every step; states deduplicated on (memory, store) = the entire mutable state; non-trivial = distinct states reached through an accumulating report or a removal of a present message"
 	deadline := time.Now().Add(ev.Budget(120 * time.Second))
 	idx := 0
 	for _, nT := range []int{1, 2, 3, 12, 13} {
